@@ -1,4 +1,5 @@
 import ObiVerif.Driver.C20
+import ObiVerif.Driver.C04
 
 partial def loop (h : IO.FS.Stream) (out : IO.FS.Stream) (f : String → String) : IO Unit := do
   let line ← h.getLine
@@ -9,6 +10,7 @@ partial def loop (h : IO.FS.Stream) (out : IO.FS.Stream) (f : String → String)
 
 def dispatch : String → Option (String → String)
   | "C20" => some ObiVerif.Driver.C20.run
+  | "C04" => some ObiVerif.Driver.C04.run
   | _ => none
 
 def main (args : List String) : IO UInt32 := do
